@@ -2,6 +2,7 @@ import Proofs.C07.Laws
 import Proofs.C07.Versions
 import Proofs.C07.DerPath
 import Proofs.C07.Bip85
+import Proofs.C07.Serial
 import Proofs.E2E.C07
 import Proofs.E2E.C07Raw
 import Proofs.E2E.CofactorOne
@@ -585,6 +586,34 @@ theorem root_from_seed_invalid_left_half_refused (seed version : Bytes) (x : XKe
           · split at hv
             · rw [hnp] at hv; simp at hv
             · cases hv
+
+/-! ## T10 — the 78 bytes of an extended key (`BIP32KeyData.serialize` / `parse`; Base58Check around them is C06's) -/
+
+/-- T10: every valid extended key is written on exactly 78 bytes — version ‖ depth ‖ parent fingerprint ‖ index
+    (big-endian) ‖ chain code ‖ key — and `parse` of those bytes gives the key back, on all six fields. -/
+theorem parse_serialize (x : XKey) (hv : assertValid E x = .ok ()) :
+    ∃ b, serialize E x = .ok b ∧ b.length = 78 ∧ parse E b = .ok x ∧
+      b = x.version ++ [UInt8.ofNat x.depth] ++ x.parentFp ++ beBytes 4 x.index ++ x.chain ++ x.key := by
+  refine ⟨serialBytes x, by simp [serialize, hv, Except.map], serialBytes_length E hv, ?_, by simp [serialBytes]⟩
+  have := parse_serialize' E hv
+  simpa [serialize, hv, Except.map, Except.bind] using this
+
+/-- T10: what `parse` answers was read off exactly 78 bytes at BIP32's offsets and passed `assert_valid`: sizes, depth
+    at most 255, index below 2^32, depth 0 ⇒ zero parent fingerprint and zero index, a private version ⇒ key prefix 00
+    and scalar in `1..n-1`, otherwise a public version and 33 octets that are a point. -/
+theorem parse_enforces (b : Bytes) (x : XKey) (h : parse E b = .ok x) :
+    b.length = 78 ∧ x = fieldsOf b ∧ assertValid E x = .ok () ∧
+    x.version.length = 4 ∧ x.parentFp.length = 4 ∧ x.chain.length = 32 ∧ x.key.length = 33 ∧
+    x.index < 2 ^ 32 ∧ x.depth ≤ 255 ∧ (x.depth = 0 → x.parentFp = [0, 0, 0, 0] ∧ x.index = 0) ∧
+    (E.isPrvVersion x.version = true → x.key.head? = some 0 ∧ 0 < x.prvInt ∧ x.prvInt < nN E) ∧
+    (E.isPrvVersion x.version ≠ true → E.isPubVersion x.version = true ∧ (parsePoint E x.key).isSome = true) := by
+  obtain ⟨h1, h2, h3⟩ := parse_ok E h
+  obtain ⟨a, b', c, d, e, f, g⟩ := assertValid_sizes E h3
+  exact ⟨h1, h2, h3, a, b', c, d, e, f, g, (assertValid_key E h3).1, (assertValid_key E h3).2⟩
+
+-- non-vacuity: the fields read off 78 bytes (a depth-0 key: version 0488ade4, zeros, chain code 07…, key 00 ‖ 1)
+example : (fieldsOf ([4, 136, 173, 228] ++ [0] ++ [0, 0, 0, 0] ++ [0, 0, 0, 0] ++ List.replicate 32 7 ++ (0 :: beBytes 32 1))).key
+    = 0 :: beBytes 32 1 := by decide
 
 /-! ## non-vacuity -/
 
